@@ -80,6 +80,12 @@ def exc(name, *args, **fields):
     return SExc(BUILTIN_EXC[name], args, **fields)
 
 
+TRANSPARENT_DECORATORS = {"staticmethod", "classmethod", "property", "contextlib.contextmanager", "contextmanager", "abstractmethod", "abc.abstractmethod",
+                          "functools.wraps", "wraps"}
+CACHING_DECORATORS = {"functools.lru_cache", "lru_cache", "functools.cache", "cache"}
+BUILTIN_NAMES = set(dir(__import__("builtins")))
+
+
 class Interp:
     def __init__(self, ctx, pack, contract):
         self.ctx = ctx
@@ -864,6 +870,72 @@ class Interp:
             self.unsupported(node, "inlining depth exceeded")
         fnode = clo.node
         decos = [ast.unparse(d) for d in getattr(fnode, "decorator_list", [])]
+        caching = False
+        for d in decos:
+            base = d.split("(")[0]
+            if base in TRANSPARENT_DECORATORS or base.endswith(".setter") or base.endswith(".getter"):
+                continue
+            if base in CACHING_DECORATORS:
+                caching = True
+                continue
+            # a decorator replaces the function by something else: its body is not what a call executes
+            self.unsupported(node, "decorator @%s on %s is not modelled" % (d, getattr(fnode, "name", "?")))
+        if caching:
+            return self.call_cached(clo, args, kwargs, node)
+        return self._call_closure_body(clo, args, kwargs, node, decos)
+
+    def call_cached(self, clo, args, kwargs, node):
+        """functools.lru_cache / cache: a call may return what an EARLIER call with equal arguments computed.  If the body
+        reads module state that is not a constant, that earlier value may differ from what the body computes now."""
+        fnode = clo.node
+        cur = self._call_closure_body(clo, args, kwargs, node, [])
+        local = {a.arg for a in fnode.args.args + fnode.args.kwonlyargs + fnode.args.posonlyargs}
+        for n in ast.walk(fnode):
+            if isinstance(n, ast.Name) and isinstance(n.ctx, ast.Store):
+                local.add(n.id)
+        reads = sorted({n.id for n in ast.walk(fnode) if isinstance(n, ast.Name) and isinstance(n.ctx, ast.Load) and n.id not in local
+                        and n.id not in BUILTIN_NAMES and self._may_be_mutable_global(clo.module, n.id)})
+        if not reads:
+            return cur
+        if self.ctx.choose(2, "cached-call:%s" % fnode.name) == 0:
+            return cur
+        self.ctx.events.append(("stale-cached-result", fnode.name, tuple(reads)))
+        if isinstance(cur, bool) or (isinstance(cur, Sym) and cur.kind is BOOL):
+            return BOOL.fresh(self.ctx, "stale_" + fnode.name)
+        if isinstance(cur, int) or (isinstance(cur, Sym) and cur.kind is INT):
+            return INT.fresh(self.ctx, "stale_" + fnode.name)
+        if isinstance(cur, Sym):
+            return cur.kind.fresh(self.ctx, "stale_" + fnode.name)
+        self.unsupported(node, "cached function %s reads %s: a stale result of this type is not modelled" % (fnode.name, reads))
+
+    def _may_be_mutable_global(self, module, name, depth=0):
+        """False for module-level functions, classes, imported modules and immutable constants (imports from sibling modules are
+        followed); True when the name is bound to anything else (tables, registries, objects) or cannot be resolved."""
+        tree = getattr(module, "tree", None)
+        if tree is None or depth > 3:
+            return True
+        for st in tree.body:
+            if isinstance(st, (ast.FunctionDef, ast.AsyncFunctionDef, ast.ClassDef)) and st.name == name:
+                return False
+            if isinstance(st, ast.Assign) and any(isinstance(t, ast.Name) and t.id == name for t in st.targets):
+                return not isinstance(st.value, ast.Constant)
+            if isinstance(st, ast.Import) and any((al.asname or al.name.split(".")[0]) == name for al in st.names):
+                return False
+            if isinstance(st, ast.ImportFrom):
+                for al in st.names:
+                    if (al.asname or al.name) == name:
+                        if st.level >= 1 and st.module:
+                            import os as _os
+                            rel = _os.path.normpath(_os.path.join(_os.path.dirname(module.relpath), *([".."] * (st.level - 1)), st.module.replace(".", "/") + ".py"))
+                            try:
+                                return self._may_be_mutable_global(SourceModule.get(rel), al.name, depth + 1)
+                            except OSError:
+                                return True
+                        return not (al.name[:1].isupper() and not al.name.isupper()) and not al.name.islower()
+        return True
+
+    def _call_closure_body(self, clo, args, kwargs, node, decos):
+        fnode = clo.node
         if "staticmethod" in decos and clo.owner_cls and args and isinstance(args[0], SObj) and getattr(clo, "_bound", False):
             args = args[1:]
         env = Env(clo.module, clo.env, getattr(fnode, "name", "<lambda>"), clo.owner_cls)
